@@ -98,7 +98,7 @@ def is_ata_block_missing(name, p):
     return name in S.ATA_LBA_BYTES and p.get("byte_block") and p.get("t_type") and p.get("t_length")
 
 
-def build_kwargs(name, point, blocksize=1, ata_blocksize=None):
+def build_kwargs(name, point, blocksize=1, ata_blocksize=None, nodata=False):
     """constructor keyword arguments for a point (adds the non-field parameters)"""
     c = S.CLASSES[name]
     kw = dict(point)
@@ -108,7 +108,7 @@ def build_kwargs(name, point, blocksize=1, ata_blocksize=None):
         if a == "blocksize":
             kw["blocksize"] = blocksize
         elif v == "TLDATA":
-            kw["data"] = bytearray(blocksize * point.get("tl", 0))
+            kw["data"] = bytearray(0 if nodata else blocksize * point.get("tl", 0))
         elif v == "ONEBLOCK":
             kw["data"] = bytearray(b"\x5a" * blocksize)
         elif v == "MODEDATA":
